@@ -638,6 +638,11 @@ func c12Derived(c *Ctx) {
 		{"write/value-expression-rebinds-the-list", "令乙 = 【1，2】\n如何重置？\n\t乙 = 【4，5，6】\n\t输出 0\n乙#1 = （重置）\n输出【乙#1，乙】\n", "list[num(0),list[num(0),num(5),num(6)]]"},
 		{"write/value-expression-rebinds-the-dictionary", "令丁 = 【“a” = 1】\n如何换新？\n\t丁 = 【“z” = 0】\n\t输出 3\n丁#“c” = （换新）\n输出【丁#“c”，丁之所有索引，丁之长度】\n", `list[num(3),list[text("z"),text("c")],num(2)]`},
 		{"write/value-expression-grows-the-list", "令甲 = 【1】\n甲#2 = 以甲（后增：7）#1\n输出 甲\n", "list[num(1),num(1)]"},
+		{"copy/entry-removed-from-the-copy", "令甲 = 【“a” = 1，“b” = 2，“c” = 3】\n令乙 = 甲\n以乙（移除：“a”）\n输出【甲之所有索引，甲之长度，甲之所有值，甲，乙之所有索引】\n", `list[list[text("a"),text("b"),text("c")],num(3),list[num(1),num(2),num(3)],dict["a"=num(1),"b"=num(2),"c"=num(3)],list[text("b"),text("c")]]`},
+		{"copy/entry-removed-from-the-original", "令甲 = 【“a” = 1，“b” = 2，“c” = 3】\n令乙 = 甲\n以甲（移除：“b”）\n输出【乙之所有索引，乙，甲之所有索引】\n", `list[list[text("a"),text("b"),text("c")],dict["a"=num(1),"b"=num(2),"c"=num(3)],list[text("a"),text("c")]]`},
+		{"copy/last-entry-removed-then-new-key", "令甲 = 【“a” = 1，“b” = 2，“c” = 3】\n令乙 = 甲\n以乙（移除：“c”）\n乙#“z” = 9\n输出【甲之所有索引，乙之所有索引】\n", `list[list[text("a"),text("b"),text("c")],list[text("a"),text("b"),text("z")]]`},
+		{"copy/new-keys-on-both-sides", "令甲 = 【“a” = 1，“b” = 2，“c” = 3】\n令乙 = 甲\n甲#“p” = 1\n乙#“q” = 2\n甲#“r” = 3\n输出【甲之所有索引，乙之所有索引】\n", `list[list[text("a"),text("b"),text("c"),text("p"),text("r")],list[text("a"),text("b"),text("c"),text("q")]]`},
+		{"copy/stored-in-a-list-then-entry-removed", "令甲 = 【“a” = 1，“b” = 2，“c” = 3】\n令册 = 【甲】\n以册#1（移除：“a”）\n以甲（移除：“c”）\n输出【甲之所有索引，册#1之所有索引】\n", `list[list[text("a"),text("b")],list[text("b"),text("c")]]`},
 		{"keys/changed-in-loop", "令典 = 【“a” = 1，“b” = 2】\n令键 = 典之所有索引\n以键（后增：“c”）\n输出【典之所有索引，典之长度】\n", `list[list[text("a"),text("b")],num(2)]`},
 	}
 	reqs := []Req{}
